@@ -8,19 +8,24 @@
     Premises, explicit in every theorem:
       [HashOk s]  BLAKE3 does not collide between the two files of one path;
       [Fresh s]   the "no name clash" class: for every both-changed path [p] of the
-                  plan with loser [l], the conflict name [cname p (Hh l)] is absent
-                  on both sides or holds exactly [l] on both sides (the repeated
-                  conflict), and two both-changed paths have different conflict
-                  names.  Excluded - the documented known class F5: the name is
-                  live with another content (an edited conflict copy: the tool
-                  overwrites it, see C02_name_clash_loses_version) or live on one
-                  side only.
+                  plan with loser [l] and conflict name [q = cname p (Hh l)]:
+                  (1) each side holds at [q] nothing or exactly [l], and if exactly
+                  one side holds it the record for [q] is not [l]'s digest - so [q]
+                  absent, [l] on both sides (the repeated conflict) and [l] on one
+                  side with no / another record (a crash leftover) are all INSIDE;
+                  (2) two both-changed paths have different conflict names (always
+                  true of the real name format: C06_conflict_name_format_injective).
+                  EXCLUDED = the documented known class F5: (i) [q] live with
+                  another content (an edited conflict copy: the tool overwrites it,
+                  C02_name_clash_loses_version); (ii) [l] at [q] on exactly one side
+                  and recorded (the planned delete removes the re-created copy,
+                  C06_name_clash_one_sided_diverges).
 
     [mtime_irrelevant] of DESIGN 5.13 is true of the model by construction: trees
     are maps path -> bytes and carry no modification times, so no theorem is
     stated for it (the tie randomises mtimes independently of contents). *)
 From stdpp Require Import gmap sorting.
-From Copia Require Import Model.Bisync Proofs.BisyncProofs.
+From Copia Require Import Model.Bisync Model.BisyncExec Proofs.BisyncProofs.
 
 Section C06.
 Context `{Countable K} {D : Type} `{EqDecision D}.
@@ -34,6 +39,18 @@ Notation plan_of s := (plan kle (scan Hh (tA s)) (scan Hh (tB s)) (arch s)).
 Notation HashOk := (HashOk Hh).
 Notation Fresh := (Fresh Hh dge cname).
 Notation conflict := (conflict Hh dge cname).
+
+(** The two premises, pinned (by computation). *)
+Theorem C06_premises_unfold :
+  forall s : state,
+  (HashOk s <-> forall p x y, tA s !! p = Some x -> tB s !! p = Some y -> Hh x = Hh y -> x = y) /\
+  (Fresh s <->
+     (forall p q l, conflict s p = Some (q, l) ->
+        (tA s !! q = None \/ tA s !! q = Some l) /\
+        (tB s !! q = None \/ tB s !! q = Some l) /\
+        (tA s !! q = tB s !! q \/ base_at (arch s) q <> Some (Hh l))) /\
+     (forall p1 p2 q l1 l2, conflict s p1 = Some (q, l1) -> conflict s p2 = Some (q, l2) -> p1 = p2)).
+Proof. intros s. split; reflexivity. Qed.
 
 (** The plan walks every key of either scan exactly once, whatever [kle] is. *)
 Theorem C06_plan_keys_spec :
@@ -146,6 +163,7 @@ Theorem C06_swap_symmetric :
 Proof. exact (swap_symmetric Hh dge cname kle). Qed.
 End C06.
 
+Print Assumptions C06_premises_unfold.
 Print Assumptions C06_plan_keys_spec.
 Print Assumptions C06_per_path_result_by_action.
 Print Assumptions C06_run_no_io_error.
@@ -157,6 +175,39 @@ Print Assumptions C06_run_idempotent.
 Print Assumptions C06_exit_status_spec.
 Print Assumptions C06_conflict_resolution.
 Print Assumptions C06_swap_symmetric.
+
+(** Clause (2) of [Fresh] is automatic for the real name format
+    [<p>.conflict-<host>-<first 12 hex digits>] (digests of at least 6 bytes). *)
+Theorem C06_conflict_name_format_injective :
+  forall host p1 d1 p2 d2 : list Z,
+  (6 <= length d1)%nat -> (6 <= length d2)%nat ->
+  bi_cname host p1 d1 = bi_cname host p2 d2 -> p1 = p2.
+Proof. exact bi_cname_inj. Qed.
+Print Assumptions C06_conflict_name_format_injective.
+
+(** Part (ii) of the known class is real: the loser's copy [1] is live at the
+    conflict name 101 on side A only AND recorded; the plan (from the scan) holds
+    [DelA 101], which removes the copy the conflict step has just re-created: the
+    run ends with different trees, and B's version [1] of path 1 is on B only. *)
+Theorem C06_name_clash_one_sided_diverges :
+  let Hh := fun c : list Z => c in
+  let dge := fun a b : list Z => (default 0 (head b) <=? default 0 (head a))%Z in
+  let cname := fun (p : nat) (d : list Z) => (100 + p)%nat in
+  let s : @state nat _ _ (list Z) :=
+    {| tA := {[ 1%nat := [2]%Z ; 101%nat := [1]%Z ]}; tB := {[ 1%nat := [1]%Z ]};
+       arch := Some {[ 101%nat := [1]%Z ]} |} in
+  let r := bisync_run Hh dge cname Nat.leb s in
+  ~ Fresh Hh dge cname s /\ r.1.2 = ExitConflicts /\ r.2 = [(1%nat, ConfBoth); (101%nat, DelA)] /\
+  map_to_list (tA r.1.1) = [(1%nat, [2]%Z)] /\
+  map_to_list (tB r.1.1) = [(1%nat, [2]%Z); (101%nat, [1]%Z)].
+Proof.
+  cbv zeta. split.
+  - intros [F1 _]. destruct (F1 1%nat 101%nat [1]%Z) as (_ & _ & [X|X]); [vm_compute; reflexivity| |].
+    + vm_compute in X. discriminate X.
+    + apply X. vm_compute. reflexivity.
+  - vm_compute. repeat split.
+Qed.
+Print Assumptions C06_name_clash_one_sided_diverges.
 
 (** Non-vacuity: a divergent edit at path 1 (B's [2] beats A's [1]), a file only on
     A, a file only on B, no record.  The state meets both premises; the run keeps
